@@ -346,6 +346,10 @@ CellOK ==
 (*  idt(v) logs "idt:<class of v>"; h(v) logs "h:<v>" and returns a base    *)
 (*  class.  main is called with this = probe object "this" and one          *)
 (*  argument, the probe object "arg0".                                      *)
+(*  Object-model classes (section "object model" below): B0 BA BG BS BR BD  *)
+(*  BF base classes, OP PX GX FZ copy sources, PA a prototype with setters, *)
+(*  TH THS THX thenables, Sx Sp W1 the keys "x" "__proto__" 1; shape(o),    *)
+(*  rd(o, k), timing(call) are the observers described there.               *)
 (***************************************************************************)
 
 \* ---- values
